@@ -329,9 +329,16 @@ def install_find_all_descendants(w):
         e = s.at(lst, j)
         return smt.FA([j], z3.Implies(z3.And(s0.len(lst) <= j, j < s.len(lst)), z3.And(Val.is_ref(e), s0.is_node(Val.r(e)))), patterns=[s.at(lst, j)])
 
+    def appended_match(s0, s, n, x, lst):
+        """soundness direction, stated directly: every appended entry is a strict descendant of n named x"""
+        j = z3.Int("am_j")
+        e = Val.r(s.at(lst, j))
+        return smt.FA([j], z3.Implies(z3.And(s0.len(lst) <= j, j < s.len(lst)), z3.And(SUB(s0, n, e), e != n, s0.name(e) == _sx(x))), patterns=[s.at(lst, j)])
+
     def ensures(s0, s, self, child_name, descendants, result=None):
         total = DC(s0, self, child_name)
-        return {"appended-are-nodes": appended_nodes(s0, s, descendants),"top:appends-as-many-as-there-are-matching-descendants": z3.And(total >= 0, s.len(descendants) == s0.len(descendants) + total),
+        return {"appended-are-nodes": appended_nodes(s0, s, descendants),
+                "top:appended-are-descendants-with-that-name": appended_match(s0, s, self, child_name, descendants),"top:appends-as-many-as-there-are-matching-descendants": z3.And(total >= 0, s.len(descendants) == s0.len(descendants) + total),
                 "top:earlier-entries-kept": prefix_kept(s0, s, descendants),
                 "top:each-matching-descendant-at-its-document-order-rank": placed(s0, s, self, child_name, descendants, s0.len(descendants),
                                                                                    None, total),
@@ -341,7 +348,7 @@ def install_find_all_descendants(w):
         n, x, d = v.self, v.child_name, v.descendants
         sofar = DCU(s0, n, x, v._k)
         return {"bound": v._k <= s0.nkids(n), "count": z3.And(sofar >= 0, s.len(d) == s0.len(d) + sofar), "earlier-entries-kept": prefix_kept(s0, s, d),
-                "appended-are-nodes": appended_nodes(s0, s, d),
+                "appended-are-nodes": appended_nodes(s0, s, d), "appended-match": appended_match(s0, s, n, x, d),
                 "placed": placed(s0, s, n, x, d, s0.len(d), v._k, sofar), "no-new-nodes": no_new_nodes(s0, s), "top": s.top >= s0.top}
 
     def loop_axioms(s0, s, v):
